@@ -1467,3 +1467,95 @@ def fresh_string_env(fn, call, X):
         elif m.get('k') == 'call' and string_call_on(fn, m, X, {'size', 'length'}):
             env[('node', m['id'])] = E.fin(0)
     return env
+
+
+# ------------------------------------------------------------------------------------------------ library contract tables (frozen)
+
+# zlib.h, flush argument.  For inflate(): "The flush parameter of inflate() can be Z_NO_FLUSH, Z_SYNC_FLUSH, Z_FINISH, Z_BLOCK, or Z_TREES."
+ZLIB_FLUSH = {
+    0: ('Z_NO_FLUSH', True, 'normal operation: inflate decides how much to produce; call again until Z_STREAM_END'),
+    1: ('Z_PARTIAL_FLUSH', None, 'a deflate() value; not among the flush values zlib.h documents for inflate()'),
+    2: ('Z_SYNC_FLUSH', True, '"requests that inflate() flush as much output as possible to the output buffer"; partial progress is fine'),
+    3: ('Z_FULL_FLUSH', None, 'a deflate() value; not among the flush values zlib.h documents for inflate()'),
+    4: ('Z_FINISH', False, '"if all decompression is to be performed in a single step ... avail_out must be large enough to hold all of the '
+                           'uncompressed data for the operation to complete"; otherwise inflate() returns Z_BUF_ERROR as soon as the stream '
+                           'does not end inside the current output window'),
+    5: ('Z_BLOCK', True, '"requests that inflate() stop if and when it gets to the next deflate block boundary"; partial progress is fine'),
+    6: ('Z_TREES', True, 'like Z_BLOCK, also returns at the end of each block header; partial progress is fine'),
+}
+
+# allocate-state function -> release-state function of the same stream object; and in-place resets that keep the allocation
+STREAM_INIT_END = {'BZ2_bzDecompressInit': 'BZ2_bzDecompressEnd', 'inflateInit_': 'inflateEnd', 'inflateInit2_': 'inflateEnd'}
+STREAM_RESET = {'inflateReset', 'inflateReset2'}
+
+# ------------------------------------------------------------------------------------------------ shared mutable state (logic of C05 W4)
+
+MUTATOR_NAMES = ('push_back', 'emplace_back', 'push', 'emplace', 'insert', 'erase', 'clear', 'append', 'assign', 'resize', 'reserve', 'swap',
+                 'reset', 'store', 'exchange', 'fetch_add', 'fetch_sub', 'pop_back', 'pop', 'operator=', 'operator+=', 'operator-=',
+                 'operator|=', 'operator&=', 'operator++', 'operator--', 'operator[]', 'set', 'add')
+
+# shared state that exists today, one reason per entry: (function qualified name, variable name / qualified name)
+SHARED_STATE_OK = {
+    ('osmium::io::CompressionFactory::instance', 'factory'):
+        'the process-wide registry of compression types (Meyers singleton): filled by register_compression() from the static initialisers '
+        'of the compression headers before main(), only looked up (find_callbacks, const) while readers / writers run',
+}
+
+
+def is_const_type(t):
+    t = (t or '').strip()
+    return t.startswith('const ') and not t.endswith(('*', '&')) or t.endswith(' const') or t.endswith('*const')
+
+
+def local_statics(g):
+    """[(decl node, var)] function-local statics of non-const type declared in body g."""
+    out = []
+    for n in g.all_nodes():
+        if n.get('k') == 'decl':
+            for v in n['vars']:
+                if v.get('static') and not is_const_type(v['tC']):
+                    out.append((n, v))
+    return out
+
+
+def written_globals(fb, g):
+    """[(node, how)] namespace-scope / static-member variables of non-const type that body g writes: assigned, incremented, address
+    taken, receiver of a mutating member call, or handed to a non-const reference parameter of a function whose body is known."""
+    out = []
+    pm = g.parent_map()
+    for n in g.all_nodes():
+        is_var = n.get('k') == 'var' and n.get('vk') in ('global', 'static_member')
+        is_mem = n.get('k') == 'member' and n.get('staticvar')
+        if not (is_var or is_mem) or is_const_type(n.get('t')) or not n.get('q', '').startswith('osmium::'):
+            continue
+        x = n['id']
+        hops = 0
+        while x in pm and hops < 10:
+            p = pm[x]
+            pn = g.nodes[p]
+            k = pn.get('k')
+            hops += 1
+            if k in ('wrap', 'icast', 'index') or (k == 'member' and pn.get('field')):
+                x = p
+                continue
+            if k == 'assign' and x in g.subtree(pn['lhs']):
+                out.append((n, 'assigned'))
+            elif k == 'unop' and pn.get('op') in ('++', '--'):
+                out.append((n, pn['op']))
+            elif k == 'unop' and pn.get('op') == '&':
+                out.append((n, 'address taken'))
+            elif k == 'call' and pn.get('recv') is not None and x in g.subtree(pn['recv']):
+                nm = pn.get('q', '').rsplit('::', 1)[-1]
+                bodies = fb.by_usr.get(pn.get('u'), []) if pn.get('u') else []
+                if (bodies and not all(b.const for b in bodies)) or (not bodies and nm in MUTATOR_NAMES):
+                    out.append((n, 'receiver of ' + pn.get('q', nm)))
+            elif k == 'call':
+                idx = [i for i, a in enumerate(pn.get('args', [])) if a is not None and x in g.subtree(a)]
+                for b in fb.by_usr.get(pn.get('u'), []) if pn.get('u') else []:
+                    for i in idx:
+                        if i < len(b.params):
+                            t = b.params[i]['tC']
+                            if t.rstrip().endswith('&') and not t.startswith('const ') and not t.rstrip().endswith('&&'):
+                                out.append((n, 'passed by reference to ' + pn.get('q', '?')))
+            break
+    return out
